@@ -186,6 +186,45 @@ Proof.
   destruct H as [H | [[e1 [e2 [es' ->]]] | ->]]; [congruence | reflexivity | reflexivity].
 Qed.
 
+(** * 2b. compute_anchor_edit_info *)
+Lemma ainfo_add_total i f : is_jse f = false -> ok (ainfo_add i f).
+Proof.
+  intros H. unfold ainfo_add. destruct (existsb _ _); [eexists; reflexivity|].
+  rewrite H. cbn [andb]. eexists; reflexivity.
+Qed.
+
+Lemma amap_update_total m k f : is_jse f = false -> ok (amap_update m k f).
+Proof.
+  intros H. induction m as [|[k' i] m IH]; cbn [amap_update].
+  - apply bind_ok; [apply ainfo_add_total; exact H | intros; eexists; reflexivity].
+  - destruct (k' =? k).
+    + apply bind_ok; [apply ainfo_add_total; exact H | intros; eexists; reflexivity].
+    + apply bind_ok; [exact IH | intros; eexists; reflexivity].
+Qed.
+
+(** No fix of a batch is a "just source edit" (what every observed batch satisfies: no segment
+    carries source fixes and no rule replaces a segment by one with the same raw) ⇒ it returns. *)
+Theorem compute_aei_total fs : forall m,
+  Forall (fun f => is_jse f = false) fs -> ok (compute_aei m fs).
+Proof.
+  induction fs as [|f fs IH]; intros m H; cbn [compute_aei]; [eexists; reflexivity|].
+  inversion H as [|? ? Hf Hfs]; subst.
+  apply bind_ok; [apply amap_update_total; exact Hf | intros; apply IH; exact Hfs].
+Qed.
+
+(** The hypothesis is needed: Replace(a -> "x") then Replace(a -> raw of a) hits [unimplemented!()]. *)
+Definition aei_witness : list bfix :=
+  [{| b_type := Replace; b_anchor := 1; b_anchor_raw := [97]; b_edits := [[120]] |};
+   {| b_type := Replace; b_anchor := 1; b_anchor_raw := [97]; b_edits := [[97]] |}].
+
+Theorem compute_aei_unimplemented_reachable :
+  compute_aei [] aei_witness = Crash site_anchor_info_unimplemented.
+Proof. vm_compute; reflexivity. Qed.
+
+Example compute_aei_example :
+  Forall (fun f => is_jse f = false) (firstn 1 aei_witness) /\ ok (compute_aei [] (firstn 1 aei_witness)).
+Proof. split; [repeat constructor | eexists; vm_compute; reflexivity]. Qed.
+
 (** * 3. The fix loop *)
 Lemma memN_In x l : memN x l = true <-> In x l.
 Proof.
